@@ -24,8 +24,17 @@ theorem C02_roundtrip (t : Ast) (h : t.WF) :
   cases t with
   | stmts ss =>
     constructor
-    · exact parse_of_parseToks (roundtrip_toks false ss (fun s hs => stmtOK_of_wf false (h s hs)))
-    · exact parse_of_parseToks (roundtrip_toks true ss (fun s hs => stmtOK_of_wf true (h s hs)))
+    · exact parse_of_parseToks (roundtrip_toks noExtra ss (fun s hs => stmtOK_of_wf noExtra (h s hs)))
+    · exact parse_of_parseToks (roundtrip_toks allExtra ss (fun s hs => stmtOK_of_wf allExtra (h s hs)))
+  | _ => exact absurd h (by simp [Ast.WF])
+
+/-- **Redundant parentheses.**  Take any set of sub-expressions (`extra`) and put parentheses
+    around every occurrence of them in addition to the required ones: the text still parses to the
+    same tree.  (`renderMin` is `extra = ∅`, `renderFull` is `extra = everything`.) -/
+theorem C02_redundant_parens (t : Ast) (h : t.WF) (extra : Ast → Bool) :
+    parse (renderWith extra t) = .ok t := by
+  cases t with
+  | stmts ss => exact parse_of_parseToks (roundtrip_toks extra ss (fun s hs => stmtOK_of_wf extra (h s hs)))
   | _ => exact absurd h (by simp [Ast.WF])
 
 /-- Minimal and full parenthesisation denote the same tree (the clause of the property as worded:
@@ -40,7 +49,7 @@ private theorem wf_single {s : Ast} (h : wfS s = true) : (Ast.stmts [s]).WF := b
 private theorem wf_pair {s1 s2 : Ast} (h1 : wfS s1 = true) (h2 : wfS s2 = true) : (Ast.stmts [s1, s2]).WF := by
   intro y hy; simp at hy; rcases hy with rfl | rfl <;> assumption
 
-private theorem rAt_bare {t : Ast} {ℓ : Nat} (h : ℓ ≤ t.level) : rAt false ℓ t = rNat false t := by
+private theorem rAt_bare {t : Ast} {ℓ : Nat} (h : ℓ ≤ t.level) : rAt noExtra ℓ t = rNat noExtra t := by
   simp [rAt, wrap, h]
 
 /-- **Assignment versus comparison.**  The tokens `x = e` at the start of a statement (also after a
@@ -48,7 +57,7 @@ private theorem rAt_bare {t : Ast} {ℓ : Nat} (h : ℓ ≤ t.level) : rAt false
     node labelled "=" with operands `x` and `e`.  (`e`: any expression that can be a comparison
     operand without parentheses.) -/
 theorem C02_assign_vs_compare (x y : String) (e : Ast) (he : wfE e = true) (hl : 2 ≤ e.level) :
-    let body : List PTok := .var x :: .cmp .asg :: rNat false e
+    let body : List PTok := .var x :: .cmp .asg :: rNat noExtra e
     parse (toTokens body) = .ok (.stmts [.assign x e])
     ∧ parse (toTokens (.p .lpar :: body ++ [.p .rpar])) = .ok (.stmts [.cmp1 .asg (.var x) e])
     ∧ parse (toTokens (.var y :: .p .semi :: body)) = .ok (.stmts [.var y, .assign x e]) := by
@@ -58,31 +67,31 @@ theorem C02_assign_vs_compare (x y : String) (e : Ast) (he : wfE e = true) (hl :
     (wf_single (by simp [wfS, wfE, cmp1OK, PCmp.backward, he]))).1
   have h3 := (C02_roundtrip (.stmts [.var y, .assign x e])
     (wf_pair (by simp [wfS, wfE]) (by simpa [wfS] using he))).1
-  have e1 : rNat false (.stmts [.assign x e]) = body := by
+  have e1 : rNat noExtra (.stmts [.assign x e]) = body := by
     simp [rNat, rStmtTail, wrap, body]
-  have e2 : rNat false (.stmts [.cmp1 .asg (.var x) e]) = .p .lpar :: body ++ [.p .rpar] := by
-    have hc : rNat false (.cmp1 .asg (.var x) e) = body := by
+  have e2 : rNat noExtra (.stmts [.cmp1 .asg (.var x) e]) = .p .lpar :: body ++ [.p .rpar] := by
+    have hc : rNat noExtra (.cmp1 .asg (.var x) e) = body := by
       rw [rNat_cmp1, rAt_bare hl, rAt_bare (by simp [level_var])]; simp [rNat_var, body]
-    have hs : rNat false (.stmts [.cmp1 .asg (.var x) e])
-        = (rStmtTail false [.cmp1 .asg (.var x) e]).drop 1 := rfl
+    have hs : rNat noExtra (.stmts [.cmp1 .asg (.var x) e])
+        = (rStmtTail noExtra [.cmp1 .asg (.var x) e]).drop 1 := rfl
     rw [hs, rStmtTail_cons]
     simp only [List.drop_succ_cons, List.drop_zero, rStmtTail, List.append_nil, stmtText]
     rw [hc]
     simp [body, startsAsg, wrap, paren]
-  have e3 : rNat false (.stmts [.var y, .assign x e]) = .var y :: .p .semi :: body := by
+  have e3 : rNat noExtra (.stmts [.var y, .assign x e]) = .var y :: .p .semi :: body := by
     simp [rNat, rStmtTail, wrap, startsAsg, body]
-  simp only [renderMin, e1, e2, e3] at h1 h2 h3
+  simp only [renderMin, renderWith, e1, e2, e3] at h1 h2 h3
   exact ⟨h1, h2, h3⟩
 
 /-- **Keyword arguments.**  In a call, `name : value` after the positional arguments is a keyword
     argument (a KEYWORD_ARG child labelled `name`); the same identifier without `:` is an ordinary
     positional argument. -/
 theorem C02_kwarg (f k : String) (a v : Ast) (ha : wfE a = true) (hv : wfE v = true) :
-    parse (toTokens (.var f :: .p .lpar :: rNat false a ++ .p .comma :: .var k :: .p .colon :: rNat false v
+    parse (toTokens (.var f :: .p .lpar :: rNat noExtra a ++ .p .comma :: .var k :: .p .colon :: rNat noExtra v
               ++ [.p .rpar])) = .ok (.stmts [.call f [a] [(k, v)]])
-    ∧ parse (toTokens (.var f :: .p .lpar :: rNat false a ++ .p .comma :: .var k :: [.p .rpar]))
+    ∧ parse (toTokens (.var f :: .p .lpar :: rNat noExtra a ++ .p .comma :: .var k :: [.p .rpar]))
         = .ok (.stmts [.call f [a, .var k] []])
-    ∧ parse (toTokens (.var f :: .p .lpar :: .var k :: .p .colon :: rNat false v ++ [.p .rpar]))
+    ∧ parse (toTokens (.var f :: .p .lpar :: .var k :: .p .colon :: rNat noExtra v ++ [.p .rpar]))
         = .ok (.stmts [.call f [] [(k, v)]]) := by
   have h1 := (C02_roundtrip (.stmts [.call f [a] [(k, v)]])
     (wf_single (by simp [wfS, wfE, wfEs, wfKs, ha, hv]))).1
@@ -90,16 +99,16 @@ theorem C02_kwarg (f k : String) (a v : Ast) (ha : wfE a = true) (hv : wfE v = t
     (wf_single (by simp [wfS, wfE, wfEs, wfKs, ha]))).1
   have h3 := (C02_roundtrip (.stmts [.call f [] [(k, v)]])
     (wf_single (by simp [wfS, wfE, wfEs, wfKs, hv]))).1
-  have e1 : rNat false (.stmts [.call f [a] [(k, v)]])
-      = .var f :: .p .lpar :: rNat false a ++ .p .comma :: .var k :: .p .colon :: rNat false v ++ [.p .rpar] := by
+  have e1 : rNat noExtra (.stmts [.call f [a] [(k, v)]])
+      = .var f :: .p .lpar :: rNat noExtra a ++ .p .comma :: .var k :: .p .colon :: rNat noExtra v ++ [.p .rpar] := by
     simp [rNat, rStmtTail, rTail, rKwTail, wrap, startsAsg]
-  have e2 : rNat false (.stmts [.call f [a, .var k] []])
-      = .var f :: .p .lpar :: rNat false a ++ .p .comma :: .var k :: [.p .rpar] := by
+  have e2 : rNat noExtra (.stmts [.call f [a, .var k] []])
+      = .var f :: .p .lpar :: rNat noExtra a ++ .p .comma :: .var k :: [.p .rpar] := by
     simp [rNat, rStmtTail, rTail, rKwTail, wrap, startsAsg]
-  have e3 : rNat false (.stmts [.call f [] [(k, v)]])
-      = .var f :: .p .lpar :: .var k :: .p .colon :: rNat false v ++ [.p .rpar] := by
+  have e3 : rNat noExtra (.stmts [.call f [] [(k, v)]])
+      = .var f :: .p .lpar :: .var k :: .p .colon :: rNat noExtra v ++ [.p .rpar] := by
     simp [rNat, rStmtTail, rTail, rKwTail, wrap, startsAsg]
-  simp only [renderMin, e1, e2, e3] at h1 h2 h3
+  simp only [renderMin, renderWith, e1, e2, e3] at h1 h2 h3
   exact ⟨h1, h2, h3⟩
 
 /-! ### non-vacuity -/
